@@ -345,7 +345,9 @@ func replaceIdent(fn *FuncNode, e ast.Expr, obj types.Object, repl string) strin
 	// token-wise replacement
 	var b strings.Builder
 	i := 0
-	isId := func(c byte) bool { return c == '_' || c >= '0' && c <= '9' || c >= 'a' && c <= 'z' || c >= 'A' && c <= 'Z' }
+	isId := func(c byte) bool {
+		return c == '_' || c >= '0' && c <= '9' || c >= 'a' && c <= 'z' || c >= 'A' && c <= 'Z'
+	}
 	for i < len(s) {
 		if strings.HasPrefix(s[i:], name) && (i == 0 || !isId(s[i-1]) && s[i-1] != '.') && (i+len(name) == len(s) || !isId(s[i+len(name)])) {
 			b.WriteString(repl)
